@@ -69,6 +69,7 @@ def handle : Handler := fun j => do
       else if hasExisting && !active && !visible then some "explicit-refresh-does-not-see-the-final-directories"
       else if getBoolD obs "late" false && !getBoolD obs "lateseen" true then
         some "directory-created-after-the-configuration-is-not-picked-up"
+      else if !getBoolD obs "inplaceseen" true then some "spec-file-rewritten-in-place-is-not-picked-up"
       else none
     pure (verdict agree judge
       (Json.mkObj [("watchers", final.res.watchers), ("watches", final.res.watches), ("auto", final.fields.auto)])
